@@ -165,6 +165,18 @@ def escaping_defaults(ctx):
     return out
 
 
+def _conditional_store(func, eff):
+    """Is the statement of this effect nested in an if / loop / try of `func` (i.e. not executed on every call)?"""
+    from .common import parent_map
+    pm = parent_map(func.node)
+    g = pm.get(id(eff.node))
+    while g is not None and g is not func.node:
+        if isinstance(g, (ast.If, ast.For, ast.While, ast.Try, ast.FunctionDef)):
+            return True
+        g = pm.get(id(g))
+    return False
+
+
 def unreset_attrs(ctx):
     """(owner class, attr) -> Effect for everything a forward / backward run writes that initialize(True, True) does not
     reset and simulate() does not re-assign (the computation of C09 R9.4)."""
@@ -179,9 +191,22 @@ def unreset_attrs(ctx):
             if isinstance(e, Store) and e.cls:
                 reset.add((ctx.types.field_owner(e.cls, e.attr) or e.cls, e.attr))
     sim = ctx.repo.method(PROJECT, "simulate")
-    for e in ctx.eff.of(sim):
-        if e.kind == "store" and e.cls:
-            reset.add((ctx.types.field_owner(e.cls, e.attr) or e.cls, e.attr))
+    # what simulate() itself assigns before its loop -- directly, or in a private helper of the project that its prologue calls
+    # unconditionally (`self.__prepare(...)`)
+    pre_funcs = [sim]
+    from .common import sim_loop, is_private_helper
+    _f, loop = sim_loop(ctx)
+    top = sim.body()
+    pre_stmts = top[: top.index(loop)] if loop in top else []
+    for s0 in pre_stmts:
+        if isinstance(s0, ast.Expr) and isinstance(s0.value, ast.Call):
+            callees, resolved = ctx.types.ftypes(sim).resolve_call(s0.value)
+            if resolved and len(callees) == 1 and callees[0].cls == PROJECT and is_private_helper(callees[0]):
+                pre_funcs.append(callees[0])
+    for pf in pre_funcs:
+        for e in ctx.eff.of(pf):
+            if e.kind == "store" and e.cls and (pf is sim or not _conditional_store(pf, e)):
+                reset.add((ctx.types.field_owner(e.cls, e.attr) or e.cls, e.attr))
     written = {}
     funcs = list(sim_reach(ctx, precise=True))
     step_code = {id(g.node) for g in funcs}
